@@ -294,13 +294,21 @@ def _run_history(desc, props=("C03", "C05", "C09")):
             if signal.getsignal(signal.SIGINT) is not signal.default_int_handler:
                 signal.signal(signal.SIGINT, signal.default_int_handler)
             nb = len(exp.execs) + len(exp.writes) + len(exp.reads) + len(S.reg)
-            kpos = rng.randint(1, max(1, nb))
+            only = None
+            if exp.writes and rng.random() < 0.5:
+                # half of the interrupts are aimed at a store write in flight (the j-th write of the run)
+                only = "wr_before"
+                kpos = rng.randint(1, len(exp.writes))
+            else:
+                kpos = rng.randint(1, max(1, nb))
             cnt = [0]
             fired = [None]
             released = threading.Event()
             main_ident = threading.main_thread().ident
 
             def boundary(bkind, key):
+                if only is not None and bkind != only:
+                    return
                 with H.lock:
                     cnt[0] += 1
                     hit = cnt[0] == kpos and fired[0] is None
@@ -308,7 +316,7 @@ def _run_history(desc, props=("C03", "C05", "C09")):
                         fired[0] = (bkind, key)
                 if hit:
                     signal.pthread_kill(main_ident, signal.SIGINT)
-                    released.wait(0.06)
+                    released.wait(0.2)
 
             H.pre = lambda nid, att: boundary("call", nid)
             H.store_hook = lambda k_, st: boundary(k_, st.name) if k_ in ("rd", "wr_before", "mt") else None
@@ -325,6 +333,12 @@ def _run_history(desc, props=("C03", "C05", "C09")):
                 H.store_hook = None
             if psrcs and fired[0] is not None:
                 i = rng.choice(psrcs)
+                if fired[0][0] == "wr_before" and rng.random() < 0.7:
+                    # preferably a source the value being written was computed from
+                    tgt = [j for j, nm in S.store_name.items() if nm == fired[0][1] and rp.role[j] in ("stored", "slit")]
+                    up = [j for j in psrcs if tgt and j in S.reg_anc[tgt[0]]]
+                    if up:
+                        i = rng.choice(up)
                 S.src_version[i] += 1
                 S.stores[i].set_content(irmod.Val(("src", i), S.src_version[i]))
             released.set()
